@@ -1,6 +1,7 @@
 # Registry: per property, which harness, which generator, which theorems file, what counts as a non-trivial case.
 import json, os, sys
 import classes as G
+import runner
 from framework import *
 
 def _steps_with_edges(c, I):
@@ -92,7 +93,27 @@ def _has_forced_dup(c, I):
         if len(segs) > k and any(t not in ('0', '1') and not t.startswith('-') for t in segs[k].split()): return True
     return False
 
+def gen_C06(rng, tier):
+    n = 2500 if tier == 'quick' else 30000
+    out = []
+    for _ in range(n):
+        cls = rng.choice(['D', 'U', 'D', 'U', 'DM', 'UM', 'DW', 'UW'])
+        lk = rng.choice(['none', 'int', 'str'] if tier == 'quick' else G.LABEL_KINDS_ALL) if cls in ('D', 'U') else ('mult' if cls in ('DM', 'UM') else 'dbl')
+        out.append(G.eq_pair(rng, cls, lk))
+    return out
+def route_eq(case):
+    t = case.split()
+    return runner.HARNESS_OF_CLASS.get(t[1] if t[0] == 'EQ' else t[0])
+
 PROPS = {
+ 'C06': dict(harness=['classes', 'multi'], gen=gen_C06, route=route_eq, coq_term=G.coq_term_eq, coq_imports=MW_IMPORTS, shrink=None,
+             histogram=lambda cases: {'equal_verdicts': 0},
+             nontrivial=lambda c, I: any(l.startswith('I ') for l in I) and ';' in c, model_name='DirectedModel.graph_eqb (operator==) on the final states of two histories',
+             rule='pairs of histories on each of the eight graph classes (six implementations x label kinds) from the same initial size: (i) two DIFFERENT constructions of the same '
+                  'target graph (shuffled insertion order, flipped undirected orientations, junk edges removed by removeEdge / removeVertexFromEdgeList / removeSelfLoops / clearEdges, '
+                  'relabel / setEdgeWeight / multiplicity detours, re-creation under another value), (ii) targets differing in exactly one edge, one label or the size, (iii) random pairs; '
+                  'compared: g==h, h==g, g!=h, h!=g, reflexivity, copy construction, assignment and independence of copies from later mutation, against the Coq model of operator== and '
+                  'the spec (same size, same keys, equal values); non-trivial = both histories non-empty'),
  'C16': dict(harness=['classes', 'multi'], gen=gen_C16, driver_args=['fspec'], coq_term=coq_term_any, histogram=G.op_histogram, coq_imports=MW_IMPORTS,
              nontrivial=_has_forced_dup, model_name='force=true branches and removeDuplicateEdges of the six class models',
              rule='simple/labelled classes: seeded histories mixing forced and unforced insertions (both orientations, loops), removeEdge, removeDuplicateEdges and the other '
